@@ -423,6 +423,54 @@ func init() {
 		}
 		e.P("/-- media.Regist and media.Unregist run entirely under registLock (Lock(); defer Unlock() first) -/")
 		e.P("def pullRegistLocked : Bool := %s", LeanBool(lockedFn("Regist") && lockedFn("Unregist")))
+		// Unregist closes the stream it is given whatever the registry holds: `s.Close()` is a statement of
+		// the function body itself (not nested in an if / loop / closure) and no return / panic / goto /
+		// os.Exit occurs anywhere in the statements that precede it.  playStream's deferred clean-up relies on
+		// this to close a pulled stream that was replaced in the registry while it still had consumers.
+		closesAlways := false
+		if b := body(gf, "", "Unregist"); b != nil {
+			recv := ""
+			if fd := FuncDecl(gf, "", "Unregist"); fd != nil && fd.Type.Params != nil && len(fd.Type.Params.List) == 1 && len(fd.Type.Params.List[0].Names) == 1 {
+				recv = fd.Type.Params.List[0].Names[0].Name
+			}
+			escapes := func(n ast.Node) bool {
+				esc := false
+				ast.Inspect(n, func(x ast.Node) bool {
+					switch v := x.(type) {
+					case *ast.FuncLit:
+						return false
+					case *ast.ReturnStmt:
+						esc = true
+					case *ast.BranchStmt:
+						if v.Tok.String() == "goto" {
+							esc = true
+						}
+					case *ast.CallExpr:
+						if f := Src(v.Fun); f == "panic" || f == "os.Exit" || f == "runtime.Goexit" {
+							esc = true
+						}
+					}
+					return true
+				})
+				return esc
+			}
+			for _, st := range b.List {
+				if es, ok := st.(*ast.ExprStmt); ok && recv != "" && Src(es.X) == recv+".Close()" {
+					closesAlways = true
+					break
+				}
+				if _, isDefer := st.(*ast.DeferStmt); isDefer {
+					continue
+				}
+				if escapes(st) {
+					break
+				}
+			}
+		} else {
+			e.Unknown("Unregist")
+		}
+		e.P("/-- media.Unregist(s) calls s.Close() unconditionally: the call is a statement of the function body and no return / panic / goto precedes it (a replaced or already removed stream is closed as well) -/")
+		e.P("def unregistClosesAlways : Bool := %s", LeanBool(closesAlways))
 		// GetOrCreate: Get, then route.Match, factory Create, idle task for non-keepalive routes
 		var gocCalls []string
 		if b := body(gf, "", "GetOrCreate"); b != nil {
